@@ -585,10 +585,17 @@ def gen_inputs(rng, n_mat, with_nonsquare=True):
         Q = gen_matrix(rng, n, m, shape, integer)
         J0 = gen_matrix(rng, n, m, SHAPES[(k * 5 + 3) % len(SHAPES)], integer)
         hl = n if not (with_nonsquare and k % 15 == 11) else n + 1
+        # magnitudes: the properties hold for every real matrix, so a share of the inputs is scaled by an
+        # exact power of two (tiny: 2^-44 ~ 6e-14, large: 2^20); float arithmetic stays exact on them
+        scale = Fraction(1)
+        if not integer and k % 9 in (4, 7):
+            scale = Fraction(1, 2 ** 44) if k % 9 == 4 else Fraction(2 ** 20)
+        Q = [[v * scale for v in row] for row in Q]
+        J0 = [[v * scale for v in row] for row in J0]
         out.append({
             "shape": shape, "integer": integer, "Q": Q, "J0": J0,
-            "c": Fraction(rng.randint(-8, 8), 4), "c0": Fraction(rng.randint(-8, 8), 4),
-            "h0": [Fraction(rng.randint(-8, 8), 2) for _ in range(hl)],
+            "c": Fraction(rng.randint(-8, 8), 4) * scale, "c0": Fraction(rng.randint(-8, 8), 4) * scale,
+            "h0": [Fraction(rng.randint(-8, 8), 2) * scale for _ in range(hl)],
             "maps": [[Fraction(rng.randint(-8, 8), 4) for _ in range(n)] for _ in range(2)],
             "xfloat": bool(k % 2), "hlist": bool(k % 3 == 0), "vseed": rng.randrange(10 ** 6),
         })
